@@ -180,9 +180,21 @@ def main(argv=None) -> int:
     tasks.sort(key=lambda t: -CELLS[t["cell"]].budget(tier) / t["nshards"])
     ctxmp = mp.get_context("fork")
     results = []
+    timed_out = []
     if tasks:
-        with ctxmp.Pool(min(a.jobs, len(tasks)), maxtasksperchild=1) as pool:
-            for res in pool.imap_unordered(core.run_task, tasks):
+        # apply_async + deadline: a worker that dies or hangs must not hang the check
+        hard = float(os.environ.get("VERIF_HARD_TIMEOUT_S", "900" if tier == "quick" else "7200"))
+        pool = ctxmp.Pool(min(a.jobs, len(tasks)), maxtasksperchild=1)
+        try:
+            asyncs = [(t, pool.apply_async(core.run_task, (t,))) for t in tasks]
+            pool.close()
+            for t, ar in asyncs:
+                left = max(1.0, hard - (time.time() - t0))
+                try:
+                    res = ar.get(timeout=left)
+                except mp.TimeoutError:
+                    timed_out.append(f"{t['cell']}#{t['shard']}")
+                    continue
                 results.append(res)
                 if a.verbose:
                     print(
@@ -190,6 +202,8 @@ def main(argv=None) -> int:
                         f"{len(res['nt_hashes'])} nt, {len(res['sigs'])} sigs, {res['wall']:.1f}s",
                         flush=True,
                     )
+        finally:
+            pool.terminate()
 
     per_cell = {}
     unknown = {}  # (cell, kind, detail) -> dict(case, info, shard, nshards)
@@ -308,6 +322,7 @@ def main(argv=None) -> int:
             },
             known_findings_hit=dict(known_hits),
             known_findings_replayed=replayed,
+            inconclusive_timeouts=timed_out,
             cells=len(per_cell),
         ),
         assumptions=list(getattr(mod, "ASSUMPTIONS", [])),
@@ -337,6 +352,8 @@ def main(argv=None) -> int:
     for cname, kind, detail, info, path in violations:
         print(f"  {cname} {kind} {detail} :: {info}")
         print(f"VIOLATION property={prop} replay={path}")
+    if timed_out:
+        print(f"INCONCLUSIVE: {len(timed_out)} cell shards hit the hard time limit: {timed_out[:6]}")
     if violations:
         return 1
     if harness_errors:
